@@ -94,6 +94,10 @@ func (t *PatternType) Get(key string) (value px.Value, ok bool) {
 }
 
 func (t *PatternType) IsAssignable(o px.Type, g px.Guard) bool {
+	if len(t.regexps) == 0 {
+		// no patterns: any string, so whatever String accepts
+		return stringTypeDefault.IsAssignable(o, g)
+	}
 	if ot, ok := o.(*PatternType); ok {
 		if len(t.regexps) == 0 {
 			return true
